@@ -299,7 +299,20 @@ func runC20(c *Ctx) {
 			ctx.Path = "/left/over"
 			ctx.SetRouterName("left-over")
 			ctx.Destroy()
+			if r.Bool() {
+				// a holder that keeps using its reference after Destroy (a deferred logger, say) is wrong - but whoever gets the
+				// object next still starts empty
+				ctx.Set("written-after-destroy", "x")
+				ctx.Path = "/written/after/destroy"
+				trail = append(trail, "Set after Destroy")
+			}
 			others := []*types.Context{types.NewContext(), types.NewContext()}
+			for _, o := range others {
+				if o.Count() != 0 || o.Path != "" {
+					c.Violate(fmt.Sprintf("a context obtained from the pool is not empty: Count=%d Path=%q", o.Count(), o.Path), map[string]any{"ops": trail})
+					return
+				}
+			}
 			others[0].Set("other", "1")
 			ctx = types.NewContext()
 			for _, o := range others {
